@@ -364,6 +364,37 @@ func c17Gen(t *rapid.T) c17Case {
 	return c
 }
 
+// ---- bounded-exhaustive lane: every cut offset of a fixed set of recordings, ended by EOF and by a reset, with the
+// handlers released before and after the disconnect ("all prefixes of recorded well-formed client byte streams").
+var c17EnumRecs = []c17Case{
+	{Reqs: []c17Req{{}}},
+	{Reqs: []c17Req{{Gate: true, Split: 7, Pad: 9}}},
+	{Reqs: []c17Req{{BodyLen: 120, Chunks: []int{50}, Gate: true}}, RespLen: 10},
+	{Reqs: []c17Req{{BodyLen: 40, Trailer: true, Split: 20}}, RespLen: 70000, Streamed: true},
+	{Reqs: []c17Req{{BodyLen: 30, Gate: true}, {Split: 3}, {BodyLen: 10, Trailer: true, Pad: 3, Gate: true}}, RespLen: 10},
+	{Reqs: []c17Req{{BodyLen: 300, Chunks: []int{100}}, {Gate: true, BodyLen: 600, Chunks: []int{250}}}, RespLen: 200000},
+}
+
+var c17EnumOff = func() []int {
+	off := []int{0}
+	for _, r := range c17EnumRecs {
+		off = append(off, off[len(off)-1]+4*(len(c17Recording(r))+1))
+	}
+	return off
+}()
+
+func c17EnumAt(i int) c17Case {
+	k := 0
+	for i >= c17EnumOff[k+1] {
+		k++
+	}
+	i -= c17EnumOff[k]
+	c := c17EnumRecs[k]
+	c.Reset, c.Linger = i%2 == 1, i%4 >= 2
+	c.CutAt = i / 4
+	return c
+}
+
 func TestC17(t *testing.T) {
 	s := newSuite(t, "C17",
 		"a recorded well-formed client byte stream (1..4 requests, or 100..400 bodiless ones with parked handlers, with bodies up to 40000, split header blocks, padding, trailers, DATA chunking; built offline with the reference HPACK encoder), then: delivered up to a generated cut offset (any byte, incl. inside a frame header, a header block or a body) or entirely; 0..4 structure-aware mutations (frame duplicate / delete / swap / bit flip / lying length / type, flags or stream-id change / inserted RST_STREAM, WINDOW_UPDATE, SETTINGS, PING, GOAWAY, PRIORITY, CONTINUATION, DATA); optional frame soup appended; the peer never reading (bounded queue) or the server's writes failing from a generated octet on; the connection then ends with EOF or a reset; handlers of some requests parked and released before or after the disconnect; responses of 0..200000 octets buffered or streamed. Oracle: the server's logger never says 'panicked'/'panic in' (recovered panics count), the process survives, ServeConn returns within 6 s of the peer being gone, afterwards only handler goroutines the harness still holds remain and none after release (connection goroutines by the serverConn address in the dump, handler goroutines by dispatchHandler frames anywhere in the process), the pool observer sees no double release and no RequestCtx returned while its handler is inside. Non-trivial = cut inside a frame, or disconnect with a handler running; distinct by case hash.")
@@ -371,4 +402,5 @@ func TestC17(t *testing.T) {
 	c17Tracker = pooltrack.Start(false)
 	defer func() { pooltrack.Stop(); c17Tracker = nil }()
 	runLane(s, Lane[c17Case]{Name: "outlive", Journal: true, Quick: 12000, Thor: 1200000, Gen: c17Gen, Run: c17Run})
+	runEnum(s, EnumLane[c17Case]{Name: "cuts", Journal: true, N: c17EnumOff[len(c17EnumOff)-1], At: c17EnumAt, Run: c17Run, QuickStride: 3, ThorStride: 1})
 }
